@@ -161,7 +161,9 @@ func main() {
 	// 1. instrument the current tree
 	instr := filepath.Join(verifDir, "bin", "instr")
 	args := []string{"-out", filepath.Join(scratch, "src"), "-overlay", filepath.Join(scratch, "overlay.json"),
-		repo, repo + "/internal/xsync", repo + "/internal/xtime", repo + "/internal/xatomic"}
+		repo, repo + "/internal/xsync", repo + "/internal/xtime", repo + "/internal/xatomic",
+		repo + "/ee/plugins/prometheus:sa",
+		"+" + repo + "/ee/plugins/prometheus/zz_verif_licence_bypass.go=" + filepath.Join(verifDir, "harness/overlay/prom_bypass.go")}
 	for _, p := range conf.extraPkg {
 		if strings.HasPrefix(p, "+") {
 			// +dst=src with src relative to verifDir
